@@ -74,19 +74,20 @@ NONNEG = ["Weibull", "LogNormal", "ExponentiatedWeibull", "GeneralizedGamma", "L
 
 # admissible range of every single parameter (used to construct dependence targets)
 PARAM_RANGE = {
-    "Weibull": dict(alpha=(0.3, 12), beta=(0.7, 4), gamma=(0.0, 2.0)),
+    "Weibull": dict(alpha=(0.3, 12), beta=(0.7, 4), gamma=(0.05, 2.0)),
     "LogNormal": dict(mu=(-1, 2.5), sigma=(0.08, 0.8)),
     "Normal": dict(mu=(-10, 30), sigma=(0.2, 8)),
     "ExponentiatedWeibull": dict(alpha=(0.1, 12), beta=(0.6, 3), delta=(0.4, 20)),
     "GeneralizedGamma": dict(m=(0.5, 8), c=(0.6, 3), lambda_=(0.1, 5)),
     "VonMises": dict(kappa=(0.2, 20), mu=(-2, 2)),
     "LogNormalNormFit": dict(mu_norm=(0.3, 20), sigma_norm=(0.05, 6)),
-    "ScipyGamma": dict(a=(0.8, 10), loc=(0.0, 2.0), scale=(0.2, 5)),
-    "ScipyGenGamma": dict(a=(0.6, 6), c=(0.6, 3), loc=(0.0, 1.0), scale=(0.2, 5)),
+    "ScipyGamma": dict(a=(0.8, 10), loc=(0.05, 2.0), scale=(0.2, 5)),
+    "ScipyGenGamma": dict(a=(0.6, 6), c=(0.6, 3), loc=(0.05, 1.0), scale=(0.2, 5)),
 }
 # parameters that may be any real number (location-like): targets drawn uniformly
-REAL_PARAMS = {("LogNormal", "mu"), ("Normal", "mu"), ("VonMises", "mu"), ("Weibull", "gamma"),
-               ("ScipyGamma", "loc"), ("ScipyGenGamma", "loc")}
+# (a dependent location of a non-negative family is constructed as a positive parameter so that the
+# variable stays non-negative for every conditioning value, also in the far tails)
+REAL_PARAMS = {("LogNormal", "mu"), ("Normal", "mu"), ("VonMises", "mu")}
 
 
 def family_params(families=ALL, wide=True):
